@@ -119,22 +119,32 @@ taskreport {report_id} "{report_id}" {{
 }}
 """
 
+    # Read original file (before anything is created, so a failure leaves nothing behind)
+    with open(tjp_path) as f:
+        original_content = f.read()
+
     # Create temporary file with random suffix (safe for concurrent execution)
     temp_fd, temp_path = tempfile.mkstemp(suffix=".tjp", prefix="plan_auto_")
     temp_file = Path(temp_path)
 
-    # Read original file
-    with open(tjp_path) as f:
-        original_content = f.read()
-
     # Write combined content and close file descriptor
-    with os.fdopen(temp_fd, "w") as f:
-        # Include original file
-        f.write(f"# Original file: {tjp_path}\n")
-        f.write("# Auto-report added by plan CLI\n\n")
-        f.write(original_content)
-        f.write("\n\n")
-        f.write(auto_report)
+    try:
+        f = os.fdopen(temp_fd, "w")
+    except BaseException:
+        os.close(temp_fd)
+        temp_file.unlink()
+        raise
+    try:
+        with f:
+            # Include original file
+            f.write(f"# Original file: {tjp_path}\n")
+            f.write("# Auto-report added by plan CLI\n\n")
+            f.write(original_content)
+            f.write("\n\n")
+            f.write(auto_report)
+    except BaseException:
+        temp_file.unlink()
+        raise
 
     return temp_file, report_id
 
